@@ -201,7 +201,7 @@ class Driver:
 
 class HyperSub(Sub):
     name = "hyperram"
-    budget = {"quick": 4000, "thorough": 50000}
+    budget = {"quick": 10000, "thorough": 150000}
     rule = ("1..4 transactions (memory/register x read/write, wrapped/linear, 32-bit address, bursts of 1..6 words, "
             "start strobe 1..5 cycles, control inputs scrambled after the strobe) against a HyperRAM BFM (RWDS latency "
             "indication, read data at clock >= 17 with extra delay and intra-burst gaps, both half-clock alignments, "
